@@ -193,10 +193,14 @@ for G1, G2 in psel:
     O1, O2 = mk((npts,), G1), mk((npts,), G2)
     cl = pairclass(G1, G2)
     st(f"two/{cl}")
-    U = _get_unique_symmetry_elements(G1, G2)
+    U = _get_unique_symmetry_elements(G2, G1)
     d = O1.dot(O2)
     cases.append({"k": "dot", "U": rj(U), "o1": O1.data[0].tolist(), "o2": O2.data[0].tolist(),
                   "out": float(d[0]), "pair": [G1.name, G2.name]})
+    if G1.size * G2.size <= 300 or (G1.name, G2.name) in MUST[:4]:
+        # what Orientation.dot(self=O1, other=O2) uses
+        Ucode = _get_unique_symmetry_elements(G2, G1)
+        cases.append({"k": "set", "U": rj(Ucode), "pair": [G1.name, G2.name]})
     b = brute(G1, G2, O1.data, O2.data)
     rep = {"G1": G1.name, "G2": G2.name, "o1": O1.data.tolist(), "o2": O2.data.tolist()}
     if not np.allclose(d, b, atol=TOL):
